@@ -211,4 +211,46 @@ example :
     ((l.step (.serialize 4 [[1, 2, 3]] false)).run evs).chan = [none] := by
   decide
 
+-- ------------------------------------------------------------------------------------------------
+-- the fork child and the parent's verdict
+-- ------------------------------------------------------------------------------------------------
+
+/-- **A dump writer that dies before it is through (signal, OOM killer, non-zero exit) is reported FAILED, never
+SUCCESS**: the caller (`__tryLogCompaction`) then trims nothing; files and transmissions are as they were. -/
+theorem killed_dump_writer_reports_failed (s : Ser) (op : FsOp) (rest : List FsOp) (ok : Bool)
+    (hm : s.mode = .file) (hf : s.fork = true) (hp : s.pid = .child) (hc : s.child = some ⟨op :: rest, ok⟩) :
+    (s.childKill.checkSerializing none).2.1 = .failed ∧ (s.childKill.checkSerializing none).1.fs = s.fs ∧
+    (s.childKill.checkSerializing none).1.trans = s.trans ∧ (s.childKill.checkSerializing none).1.pid = .idle := by
+  simp [Ser.childKill, hc, Ser.checkSerializing, Ser.memBranch, hm, hf, hp]
+
+example :
+    let s : Ser := { mode := .file, fork := true, batch := 1, fs := { dump := some [7] } }
+    let s1 := (s.serialize 3 [[1], [2]] false).1.childStep.childStep
+    (s1.childKill.checkSerializing none).2.1 = .failed ∧ (s1.childKill.checkSerializing none).1.fs.dump = some [7] ∧
+    (s1.childStep.childStep.childStep.checkSerializing none).2.1 = .success := by
+  decide
+
+/-- **D66 (repaired): a snapshot installed from the leader is not overwritten by the node's own, older dump child.**
+When a complete incoming snapshot is installed while a fork child of an own dump is running, the child is stopped
+before the rename: afterwards there is no child, no later child step changes any file, and `checkSerializing` reports
+NOT_SERIALIZING (nothing is trimmed for the abandoned dump). -/
+theorem installed_snapshot_survives_own_dump_child (r : Ser) (c : Chunk)
+    (hm : r.mode = .file) (hf : r.fork = true) (hp : r.pid = .child)
+    (hacc : c.isFirst = true ∨ r.incOpen = true) (hl : c.isLast = true) :
+    (r.setTransmissionData (some c)).2 = true ∧ (r.setTransmissionData (some c)).1.child = none ∧
+    (r.setTransmissionData (some c)).1.childStep = (r.setTransmissionData (some c)).1 ∧
+    ((r.setTransmissionData (some c)).1.checkSerializing none).2.1 = .notSerializing := by
+  have h : ¬ ((!c.isFirst && !r.incOpen) = true) := by
+    rcases hacc with h | h <;> simp [h]
+  simp [Ser.setTransmissionData, h, hl, hm, hf, hp, Ser.childStep, Ser.checkSerializing, Ser.memBranch]
+
+/-- non-vacuity, and the schedule of the witness: own dump child forked at `[7]`, the leader's snapshot `[1,2]` is
+installed, the (stopped) child's remaining operations change nothing: the dump stays `[1,2]` -/
+example :
+    let r : Ser := { mode := .file, fork := true, batch := 1, fs := { dump := some [7] } }
+    let r1 := (r.serialize 3 [[7, 7]] false).1.childStep
+    let r2 := (r1.feed [some ⟨[1, 2], true, false⟩, some ⟨[], false, true⟩]).1
+    r1.pid = .child ∧ r2.fs.dump = some [1, 2] ∧ r2.childStep.childStep.childStep.fs.dump = some [1, 2] ∧ r2.pid = .idle := by
+  decide
+
 end PSO.C09
